@@ -17,7 +17,7 @@ ASSUMPTIONS = [
 ]
 MANIFEST = {'text': 'proof (all normal paths of the stage function) of: no message-carrying value is dropped un-drained, none is cloned, no lossy container operation, '
                     'final flush drains the heap before Ok, the stage writes no DltMessage field, heap comparator is key-based. Ordering under bounded delay is not decided.'
-                    ' Added (ordering half, necessary conditions only): the heap key is capped at the reception time and the release threshold is never below the configured minimum delay.'}
+                    ' Added (ordering half, necessary conditions only): the heap key is capped at the reception time and the release threshold is never below the configured minimum delay. Added: control requests are keyed by their reception time (every other key definition lies behind !is_ctrl_request()).'}
 
 
 def stage_bodies(F):
@@ -94,7 +94,7 @@ def run(F, chk):
     comps = comparators.check(F, O1, lambda b: (b.impl_self or '').startswith('adlt::utils::SortedDltMessage'), floor=1)
     O2 = chk.rule('O2', 'the heap key (calculated time) of every buffered message is capped at its reception time before it enters the heap')
     for b in stages:
-        check_key_cap(b, O2)
+        check_key_cap(b, O2, F)
     O2.floor('sort stage functions', len(stages), 1)
     O4 = chk.rule('O4', 'the sorter buffers messages in a multiset container (heap/vector/deque), never in a set or map keyed by the comparator')
     check_buffer_is_multiset(stages, O4)
@@ -102,12 +102,12 @@ def run(F, chk):
     check_release_only_by_age(F, stages, O5)
     O6 = chk.rule('O6', 'the heap key of a control request is its reception time: every other definition of the key lies on the false edge of is_ctrl_request()')
     for b in stages:
-        check_ctrl_request_key(b, O6)
+        check_ctrl_request_key(b, O6, F)
     O3 = chk.rule('O3', 'the release threshold of the sorter is, on every path, the configured minimum delay, its previous value, or minimum + x (never below the minimum)')
     check_threshold_floor(F, stages, O3)
 
 
-def check_key_cap(b, O2):
+def check_key_cap(b, O2, F=None):
     """SortedDltMessage { m, calculated_time_us: v }: v must be clamped to m.reception_time_us
     (if v > recv { v = recv } dominating the construction, or min(v, recv))"""
     from expr import ExprBuilder, show, walk
@@ -153,12 +153,64 @@ def check_key_cap(b, O2):
                                     why = 'clamped: if %s > %s { %s = %s }' % (show(v), show(y)[:40], show(v), show(y)[:40])
                 if why is None:
                     why = phi_capped(cfg, E, b, v)
+                if why is None and F is not None:
+                    # the key is computed by a closure / private function of the crate: every value it returns is capped there
+                    ko = Operand(s.rv['ops'][fields.index('calculated_time_us')])
+                    kl = ko.place.l if ko.place is not None and ko.place.is_local else None
+                    for _ in range(3):
+                        sd = cfg.single_def(kl) if kl is not None else None
+                        if sd is not None and sd[1] != 'call' and sd[2].rv['k'] == 'use' and Operand(sd[2].rv['o']).place is not None and Operand(sd[2].rv['o']).place.is_local:
+                            kl = Operand(sd[2].rv['o']).place.l
+                    sd = cfg.single_def(kl) if kl is not None else None
+                    if sd is not None and sd[1] == 'call' and sd[2].callee.resolved and F.get(sd[2].callee.resolved) is not None:
+                        H = F.get(sd[2].callee.resolved)
+                        hcfg = CFG(H)
+                        hE = ExprBuilder(hcfg, fold_named=True)
+                        if phi_capped_local(hcfg, hE, H, 0):
+                            why = 'computed by %s, every value it returns is the reception time or guarded <= reception time' % H.path.split('::')[-1]
+                            O2.fn(H.path)
                 if why:
                     O2.ok(sample={'heap_key': sv[:60], 'capped_by': why, 'at': b.loc(s.sp)})
                 else:
                     O2.violation(('key-not-capped', b.path), 'the calculated time %s used as heap key at %s is not capped at the reception time of the message: a message whose lifecycle start + timestamp lies after its reception is sorted (and held back) by that future time' % (sv[:60], b.loc(s.sp)),
                                  where=b.loc(s.sp))
     O2.floor('SortedDltMessage constructions in ' + b.path, n, 1)
+
+
+def phi_capped_local(cfg, E, b, l):
+    """every definition of local l (e.g. the return place of a key closure) is the reception time or a value stored under a guard
+    `value <= reception time`"""
+    from expr import show
+    import guards
+    defs = cfg.defs.get(l, [])
+    if not defs:
+        return False
+    for (bi, si, d) in defs:
+        if si == 'call':
+            if re.search(r'(cmp::min|Ord::min)$', d.callee.path) and any('reception_time_us' in show(E.operand(a)) for a in d.args):
+                continue
+            return False
+        e = E.rvalue(d.rv)
+        if isinstance(e, tuple) and e[0] in ('place', 'proj') and show(e).endswith('reception_time_us'):
+            continue
+        ok = False
+        for (c, truth, D) in guards.known(cfg, E, bi):
+            if truth not in (True, False):
+                continue
+            c2, t2 = guards.normalise(c, truth)
+            if not (isinstance(c2, tuple) and c2[0] == 'bin' and t2 is True):
+                continue
+            if c2[1] in ('Le', 'Lt'):
+                lo, hi = c2[2], c2[3]
+            elif c2[1] in ('Ge', 'Gt'):
+                lo, hi = c2[3], c2[2]
+            else:
+                continue
+            if lo == e and 'reception_time_us' in show(hi):
+                ok = True
+        if not ok:
+            return False
+    return True
 
 
 def phi_capped(cfg, E, b, v):
@@ -384,7 +436,7 @@ def check_release_only_by_age(F, stages, O5):
 # ---------------------------------------------------------------------------------------------
 # O6: control requests are keyed by their reception time
 
-def check_ctrl_request_key(b, O6):
+def check_ctrl_request_key(b, O6, F=None):
     """"sorted by lifecycle start + timestamp, reception time for control requests": a control request is injected by the logger,
     its timestamp field (if any) is not on the sender's clock.  Every definition of the value that becomes the heap key is
     either the reception time of the message, or lies behind the false edge of `is_ctrl_request()`."""
@@ -409,23 +461,58 @@ def check_ctrl_request_key(b, O6):
                         l = Operand(sd[2].rv['o']).place.l
                     keys.add(l)
     n = 0
-    for l in keys:
-        for (bi, si, d) in cfg.defs.get(l, []):
-            n += 1
-            O6.sites += 1
+    counted = [0]
+
+    def judge_local(x, xcfg, xE, xE0, l, seen, out):
+        """every definition of local l of body x: reception time, a min()/copy of judged values, a value computed by a closure /
+        helper of the crate that is judged the same way, or behind !is_ctrl_request()"""
+        if (x.path, l) in seen:
+            return
+        seen.add((x.path, l))
+        for (bi, si, d) in xcfg.defs.get(l, []):
+            counted[0] += 1
+            not_ctrl = any(truth is False and isinstance(c, tuple) and c[0] == 'call' and c[1].endswith('::is_ctrl_request') for (c, truth, D) in guards.known(xcfg, xE0, bi))
+            if not_ctrl:
+                continue
             if si == 'call':
-                val = d.callee.path
-                is_recv = False
-            else:
-                e = E.rvalue(d.rv)
-                val = show(e)
-                is_recv = isinstance(e, tuple) and e[0] in ('place', 'proj') and val.endswith('.reception_time_us')
-            not_ctrl = any(truth is False and isinstance(c, tuple) and c[0] == 'call' and c[1].endswith('::is_ctrl_request') for (c, truth, D) in guards.known(cfg, E0, bi))
-            if is_recv:
-                O6.ok(sample={'key_definition': val[:60], 'is': 'the reception time'})
-            elif not_ctrl:
-                O6.ok(sample={'key_definition': val[:60], 'only_for': 'messages that are not control requests'})
-            else:
-                O6.violation(('ctrl-request-not-keyed-by-reception', b.path), 'the sort key is set to %s at %s on a path that a control request can take (no dominating `!is_ctrl_request()`): '
-                             'control requests must be sorted by their reception time, their timestamp is not on the sender clock' % (val[:70], b.loc(d.sp)), where=b.loc(d.sp))
+                p = d.callee.path
+                if re.search(r'(cmp::min|Ord::min)$', p):
+                    for a in d.args:
+                        judge_operand(x, xcfg, xE, xE0, a, seen, out, d.sp)
+                    continue
+                H = F.get(d.callee.resolved) if (F is not None and d.callee.resolved) else None
+                if H is not None and H.crate == 'lib' and re.search(r'\bu64\b', H.ret_type()):
+                    hcfg = CFG(H)
+                    judge_local(H, hcfg, ExprBuilder(hcfg, fold_named=True), ExprBuilder(hcfg), 0, seen, out)
+                    O6.fn(H.path)
+                    continue
+                out.append(('result of ' + p, x.loc(d.sp)))
+                continue
+            if d.rv['k'] in ('use', 'cast'):
+                judge_operand(x, xcfg, xE, xE0, Operand(d.rv['o']), seen, out, d.sp)
+                continue
+            out.append((show(xE.rvalue(d.rv))[:70], x.loc(d.sp)))
+
+    def judge_operand(x, xcfg, xE, xE0, o, seen, out, sp):
+        if o.place is None:
+            out.append(('a constant', x.loc(sp)))
+            return
+        e = xE.operand(o)
+        if isinstance(e, tuple) and e[0] in ('place', 'proj') and show(e).endswith('.reception_time_us'):
+            return
+        if o.place.is_local and not o.place.p and o.place.l > x.arg_count:
+            judge_local(x, xcfg, xE, xE0, o.place.l, seen, out)
+            return
+        out.append((show(e)[:70], x.loc(sp)))
+    for l in keys:
+        bad = []
+        judge_local(b, cfg, E, E0, l, set(), bad)
+        n = counted[0]
+        O6.sites += n
+        if bad:
+            val, where = bad[0]
+            O6.violation(('ctrl-request-not-keyed-by-reception', b.path), 'the sort key can be %s (%s) on a path that a control request can take (no dominating `!is_ctrl_request()`): '
+                         'control requests must be sorted by their reception time, their timestamp is not on the sender clock' % (val, where), where=where)
+        else:
+            O6.ok(sample={'key_definitions_examined': n, 'each': 'reception time, min()/copy of such values, or only for messages that are not control requests'})
     O6.floor('definitions of the heap key in the sorter', n, 2)
